@@ -148,9 +148,13 @@ func runC10(p *core.Program, r *core.Report) {
 			if fl.Exported && anchored {
 				var bad []string
 				n := 0
+				snapshot := strings.HasPrefix(fl.FI.Obj.Name(), "Size") || strings.HasPrefix(fl.FI.Obj.Name(), "Len") || strings.HasPrefix(fl.FI.Obj.Name(), "IsEmpty")
 				for _, ac := range fl.Accesses {
 					if !guarded[ac.Field] {
 						continue
+					}
+					if snapshot && !tl.Written[ac.Field] {
+						continue // a size snapshot of an inner collection (which has its own lock) is not a compound operation
 					}
 					n++
 					if ac.Held != locks.Yes {
@@ -234,6 +238,22 @@ func runC10(p *core.Program, r *core.Report) {
 // (SetX) — the structure's own mutable state.
 func guardedFields(tl *locks.TypeLocks) map[string]bool {
 	out := map[string]bool{}
+	// inner collections (pointer to a list/map of this module): their content is the structure's
+	// mutable state even though the pointer itself is never reassigned; an operation on them outside
+	// the mutex interleaves with the check-then-act sequences of the locked methods
+	if st, ok := tl.Type.Underlying().(*types.Struct); ok {
+		for i := 0; i < st.NumFields(); i++ {
+			ft := st.Field(i).Type()
+			if pt, ok := ft.(*types.Pointer); ok {
+				if nt, ok := pt.Elem().(*types.Named); ok && nt.Obj().Pkg() != nil {
+					pp := nt.Obj().Pkg().Path()
+					if strings.HasSuffix(pp, "/util/list") || strings.HasSuffix(pp, "/util/hmap") {
+						out[st.Field(i).Name()] = true
+					}
+				}
+			}
+		}
+	}
 	for _, fl := range tl.Order {
 		if strings.HasPrefix(fl.FI.Obj.Name(), "Set") {
 			continue
